@@ -145,6 +145,18 @@ def build(sysd, walker_type, n_walkers, dt=0.01, n_batch=1, trial_kind=None, n_o
     return dict(L=L, ham=ham, ham_data=hd, prop=prop, trial=trial, wave_data=wd, walker_type=walker_type)
 
 
+def with_rdm1(B, rdm1):
+    """The same objects with a caller-supplied density for the mean-field shift that is NOT the trial's own (allowed by
+    the wave_function docstring); both sets of intermediates rebuilt through the public builders."""
+    jnp = B["L"]["jnp"]
+    wd = dict(B["wave_data"])
+    wd["rdm1"] = jnp.asarray(rdm1)
+    hd = {k: v for k, v in B["ham_data"].items() if k in ("h0", "h1", "chol", "ene0")}
+    hd = B["ham"].build_measurement_intermediates(hd, B["trial"], wd)
+    hd = B["ham"].build_propagation_intermediates(hd, B["prop"], B["trial"], wd)
+    return dict(B, wave_data=wd, ham_data=hd)
+
+
 def fresh_prop_data(B, key):
     """prop_data as driver.afqmc builds it (init_prop_data + key)."""
     pd = B["prop"].init_prop_data(B["trial"], B["wave_data"], B["ham_data"], None)
